@@ -2,26 +2,37 @@
 
 Correspondence stream `c17` (two request kinds, dispatched on "op"):
   formula  a generated formula (plain, back-quoted and dotted names, nested calls, attribute access, `{}`
-           expressions) x a data column set x a context mapping that shadows or extends the data, the
-           built-in transforms and Python's builtins. On the REAL objects: `Formula.required_variables`
-           (before), `_get_ast_node_variables` per Python factor (ordered), materialisation with
-           `PandasMaterializer(data, context)`, `ModelSpec(s).variables / required_variables /
-           variables_by_source` (after), then re-materialisation on the data restricted to the reported
-           set and with each reported member removed (before-set with the Formula, after-set with the
-           ModelSpec). The Lean model (`Model.Variables`) gets the same factors — the CPython `ast` tree of
-           every Python factor after the real `sanitize_variable_names` (CPython's parser and the
-           sanitiser are parameters) — plus the key lists of the layers, and must predict every one of
-           these observables; for outcomes it predicts `ok` / `FactorEvaluationError caused by NameError`
+           expressions, lambdas and the four kinds of comprehension with local names that may coincide with data
+           columns or context entries, `Q("name")`, several right-hand parts) x a data column set x a context mapping
+           (plain dict, nested / named / grown-in-place / frame-captured LayeredMapping, a sub-layer that is itself
+           called `data`) that shadows or extends the data, the built-in transforms and Python's builtins, occasionally
+           binding one of the names `stateful_eval` reserves. On the REAL objects: `Formula.required_variables` and
+           `ModelSpec.from_spec(formula).required_variables` (before), `_get_ast_node_variables` per Python factor
+           (ordered), materialisation with `PandasMaterializer(data, context)`, `ModelSpec(s).variables /
+           required_variables / variables_by_source / factor_variables` (after), re-materialisation on the data
+           restricted to the reported set and with each reported member removed (before-set with the Formula,
+           after-set with the ModelSpec), the named-layer lookups `layered_context.<name>` / `named_layers`, and what
+           a caller-supplied stateful transform finds in the `_context` it is handed. The Lean model
+           (`Model.Variables`) gets the same factors, grouped by part — the CPython `ast` tree of every Python factor
+           after the real `sanitize_variable_names` (CPython's parser and the sanitiser are parameters) — plus the key
+           lists of the layers, and must predict every one of these observables; for outcomes it predicts `ok` /
+           `FactorEvaluationError` caused by `NameError`, `UnboundLocalError` or the reserved-name `RuntimeError`
            (failures of the operations themselves are a parameter of the model: accepted and counted).
-  dot      `lhs ~ .` materialised through the real parser with the materializer's layered context; the
-           model computes `__formulaic_variables_used_lhs__` from the real left-hand-side tokens and the
-           expansion with the parser model's `applyPlain` on the `.` operator.
+  dot      `lhs ~ rhs` with one to three occurrences of `.` on the right-hand side (sums, interactions, powers,
+           parentheses, several parts), parsed with the materializer's layered context, with an explicit
+           `__formulaic_variables_available__`, or with no information at all; the model runs the WHOLE parser model
+           (`formulaOfString`) with the evaluation context as a value: available = keys of the layer called `data`
+           (computed by the named-layers model), left-hand-side variables = `tokenRequired` of the CPython trees;
+           compared: the structured Formula and `ModelSpec.required_variables` of every part.
 
 Oracle (implementation only, never looks at the model): sufficiency and necessity of both reported sets
-against real materialisations, the reported source of every variable against an independent walk of the
-expression's `Name` nodes through data > context > transforms, the materialised single-factor columns
-against an independent `eval` over a `ChainMap(data, context, TRANSFORMS)`, and the `.` expansion against
-"data columns not read by the left-hand side, in data order".
+against real materialisations, the reported source of every variable against an independent scope-aware walk of the
+expression's free `Name` nodes (cross-checked with the compiler's symbol tables) through data > context >
+transforms, the materialised single-factor columns against an independent `eval` over one flat namespace, a
+materialisation that fails although every factor evaluates independently, the named layers against the case, the
+`_context` of stateful transforms against the three layers, and the `.` expansion against the formula obtained by
+writing EVERY `.` out as the data columns not read by the left-hand side (in data order) and parsing it without `.`;
+right-hand parts never report a response variable.
 """
 from __future__ import annotations
 
@@ -34,63 +45,113 @@ import types
 import numpy
 import pandas
 
+from harness import parser_common as pc
+
 PROPERTY = "C17"
 ENGINE = "c17"
 REQUIRED_THEOREMS = [
     "resolution_order",
     "context_source",
     "reported_source_is_first_layer",
+    "named_layers_of_context",
     "ast_variables_fuel_sufficient",
     "ast_variables_cover_names",
+    "bound_names_not_reported",
     "eval_depends_on_free_names",
     "eval_fails_on_unbound_name",
+    "strict_fragment_all_strict",
     "eval_nameError_iff",
+    "nested_scope_resolution",
     "restrict_sufficient",
     "remove_necessary",
+    "strict_fragment_not_lazy",
+    "reserved_names_rejected",
     "required_sufficient",
     "required_necessary",
     "required_before_sufficient",
     "required_before_necessary",
+    "parts_required_sufficient",
+    "parts_required_necessary",
+    "lookup_part_reports_its_names",
     "dot_expansion",
     "dot_operator_in_table",
+    "dot_every_occurrence",
+    "dot_context_of_formula",
 ]
 TRUSTED = [
     "parameters of the model, not verified: CPython's parser (`ast.parse`: the harness hands the tree of every Python "
-    "fragment to the model), `sanitize_variable_names` (regex splitting of back-quoted names; its alias table is handed "
-    "over; contract used: sanitised names are identifiers that were not bound before), the semantics of every operation "
-    "on values (`Ops`: calls, attribute access, operators, subscripts may fail in the real code for reasons other than an "
-    "unbound name; such failures are accepted and counted), `dir(builtins)`",
-    "not modelled: name resolution inside comprehensions, lambdas, conditional expressions, `and`/`or`, chained "
-    "comparisons, starred arguments, dict displays, f-strings (the generator stays inside the strict fragment: every "
-    "sub-expression is evaluated exactly once, left to right); the reserved names `__FORMULAIC_*__`; the early evaluation "
-    "of call targets by `_is_stateful_transform` (in the strict deterministic fragment it cannot change success/failure); "
-    "the random suffix `sanitize_variable_name` adds when a sanitised name collides with a bound name",
+    "fragment to the model) and its scoping rules as of 3.12 (first iterable of a comprehension and lambda defaults in the "
+    "enclosing scope; cross-checked per case against `symtable`), `sanitize_variable_names` (regex splitting of back-quoted "
+    "names; its alias table is handed over; contract used: sanitised names are identifiers that were not bound before), "
+    "`sanitize_python_code` (normal form of Python tokens, for the `.` stream), the semantics of every operation on values "
+    "(`Ops`: calls, attribute access, operators, subscripts, iteration, truth values, unpacking, when closures are called; "
+    "they may fail in the real code for reasons other than an unbound name; such failures are accepted and counted), "
+    "`dir(builtins)`",
+    "the symbolic operations of the engine give every iterable one item, make every condition hold and run every closure "
+    "once: the generator only builds comprehensions over non-empty iterables whose conditions hold at least once and "
+    "closures that are called",
+    "not modelled: conditional expressions, `and`/`or`, chained comparisons, starred arguments, dict displays, f-strings, "
+    "`:=`, attribute / subscript targets of comprehensions (the generator stays outside them); what `Q(\"name\")` does with "
+    "its string (finding C17-F4: the model treats it as an opaque call); the evaluation of call targets ahead of the "
+    "expression by `_is_stateful_transform` (after repair 3e3ece6 it swallows every exception and skips targets that mention "
+    "a local name, so with side-effect-free operations it cannot change the outcome; the extra call it causes is visible to "
+    "the harness' spy transform and discounted there); `repr`/pretty-printing, the sympy path of `differentiate`",
 ]
 ASSUMPTIONS = [
     "necessity is claimed for reported variables that no lower layer binds: when the caller's context, the transforms or "
     "Python's builtins also bind the name, removing the data column un-shadows that binding and the evaluation "
     "legitimately proceeds with it (the harness then checks that the reported source moves to that layer)",
+    "necessity is claimed for names read in strict position (`NotOnlyLazy`): a name mentioned only inside a lambda body or "
+    "inside a comprehension (apart from its first iterable) need not be read — the closure may never be called, the "
+    "iterable may be empty; in generated cases every such position is evaluated, so the oracle demands necessity there too",
     "before materialisation the formula cannot see the context: names the context (or Python's builtins) will provide are "
     "reported although they need not be in the data (documented in the docstring of `required_variables`); they are "
-    "exempt from the necessity check by the previous assumption",
+    "exempt from the necessity check by the first assumption",
+    "no layer binds one of the names `stateful_eval` reserves (`Gen/C17Reserved.lean`): otherwise every Python factor is "
+    "rejected (theorem `reserved_names_rejected`; such cases are generated and the rejection is compared)",
     "data columns are numeric and every term yields at least one column (ModelSpec.variables is read off the structure)",
 ]
 RULE = (
     "formula: 2-6 data columns from {x,y,z,w} + names that collide with transforms/builtins {C,log,scale,np,center,exp,I,id,len} "
-    "+ non-identifier names {`a b`,`x.y`,`1a`,`a+b`}; context of 0-4 entries (arrays, scalars, functions, a higher-order "
-    "function, namespaces) whose names shadow data columns / transforms / builtins or are new; 1-4 terms of 1-2 factors "
-    "drawn from lookups (plain, quoted), calls (transform, context, dotted, nested, keyword), method calls and attribute "
-    "access on columns, `{}` expressions (operators, subscripts, calls on call results, attributes of parenthesised "
-    "expressions), optional left-hand side, occasional unbound name; dot: `lhs ~ .` with 1-2 left-hand-side factors. "
-    "non-trivial = a Python factor, a quoted name or a non-empty context; distinct by canonical JSON"
+    "+ non-identifier names {`a b`,`x.y`,`1a`,`a+b`}, in 3% of the environments a reserved `__FORMULAIC_*__` name; context of "
+    "0-4 entries (arrays, scalars, functions, higher-order functions, namespaces, a stateful transform that inspects its "
+    "`_context`) whose names shadow data columns / transforms / builtins or are new, supplied as dict / LayeredMapping "
+    "(nested, named, grown in place, with a sub-layer called `data`) / captured frame; 1-4 terms of 1-2 factors drawn from "
+    "lookups (plain, quoted), calls (transform, context, dotted, nested, keyword), method calls and attribute access on "
+    "columns, `{}` expressions (operators, subscripts, calls on call results, attributes of parenthesised expressions), "
+    "lambdas (immediately called, with defaults, handed to a higher-order function) and list / set / dict / generator "
+    "comprehensions (conditions, two generators, tuple targets) whose local names are drawn from {a,b,t,k,v} and from the "
+    "data / context names, `Q(\"col\")`, optional left-hand side, optional further right-hand parts (`|`), occasional unbound "
+    "name; dot: the fixed table of 12 multi-`.` formulas + `lhs ~ rhs` with 1-3 `.` in sums / interactions / parentheses / "
+    "powers / several parts, left-hand side of 1-2 generated factors, context = layered (80%), explicit available list, "
+    "or none. non-trivial = a Python factor, a quoted name or a non-empty context; distinct by canonical JSON"
 )
 
 NROWS = 4
+_LAST_RESORT: set = set()
 TRANSFORM_CALLABLES = ["log", "exp", "center", "scale", "I"]
 SPECIAL_COLS = ["C", "log", "scale", "np", "center", "exp", "I", "id", "len"]
+ALIAS_COLS = ["a_b", "_1a", "x_y"]  # identifiers that the sanitised forms of the back-quoted names collide with
 QUOTED_COLS = ["a b", "x.y", "1a", "a+b"]
 PLAIN_COLS = ["x", "y", "z", "w"]
 BUILTIN_NAMES = sorted(n for n in dir(_builtins))
+
+
+def _last_resort_names():
+    """what a name that no layer binds can still resolve to: Python's builtins, and the objects `stateful_eval` injects
+    under its reserved names (reachable only when no layer binds those names: otherwise the factor is rejected)"""
+    from harness import translate
+
+    return BUILTIN_NAMES + [n for n in translate.c17_reserved_names() if n not in BUILTIN_NAMES]
+
+
+def _is_last_resort(name):
+    return name in _LAST_RESORT
+
+
+RESERVED_NAMES = [
+    "__FORMULAIC_CONTEXT__", "__FORMULAIC_METADATA__", "__FORMULAIC_STATE__", "__FORMULAIC_SPEC__",
+]  # what the generator tries; the model uses the list read off the live function (Gen/C17Reserved.lean)
 
 
 class Outside(Exception):
@@ -129,16 +190,51 @@ def conv(n) -> dict:
         return dict(t="seq", k=type(n).__name__, es=[conv(e) for e in n.elts])
     if isinstance(n, ast.Slice):
         return dict(t="seq", k="Slice", es=[conv(e) for e in (n.lower, n.upper, n.step) if e is not None])
+    if isinstance(n, ast.Lambda):
+        a = n.args
+        ps = ([x.arg for x in (*a.posonlyargs, *a.args)] + ([a.vararg.arg] if a.vararg else [])
+              + [x.arg for x in a.kwonlyargs] + ([a.kwarg.arg] if a.kwarg else []))
+        return dict(t="lambda", ps=ps, ds=[conv(d) for d in (*a.defaults, *a.kw_defaults) if d is not None], body=conv(n.body))
+    if isinstance(n, (ast.ListComp, ast.SetComp, ast.GeneratorExp, ast.DictComp)):
+        gens = []
+        for g in n.generators:
+            if g.is_async:
+                raise Outside("async comprehension")
+            if isinstance(g.target, ast.Name):
+                ts = [g.target.id]
+            elif isinstance(g.target, ast.Tuple) and len(g.target.elts) >= 2 and all(isinstance(e, ast.Name) for e in g.target.elts):
+                ts = [e.id for e in g.target.elts]
+            else:
+                raise Outside("comprehension target")
+            gens.append(dict(ts=ts, it=conv(g.iter), ifs=[conv(x) for x in g.ifs]))
+        es = [conv(n.key), conv(n.value)] if isinstance(n, ast.DictComp) else [conv(n.elt)]
+        return dict(t="comp", k=type(n).__name__, es=es, gens=gens)
     raise Outside(type(n).__name__)
 
 
-def pycode(expr: str):
-    """what CPython sees of a Python fragment after the real sanitiser: (tree, aliases) or None (SyntaxError)"""
+ENV_KEYS: list = []  # the keys of the evaluation environment of the case at hand (set by impl / the oracle helpers)
+
+
+def env_keys(c, ctx=None):
+    """the keys `stateful_eval` finds in its environment: data, the caller's context (as built), the transforms"""
+    from formulaic.transforms import TRANSFORMS
+
+    if not _LAST_RESORT:
+        _LAST_RESORT.update(_last_resort_names())
+    ctx = build_context(c) if ctx is None else ctx
+    return list(c["data"]) + [str(k) for k in ctx] + list(TRANSFORMS)
+
+
+def pycode(expr: str, keys=None):
+    """what CPython sees of a Python fragment after the real sanitiser run against the evaluation environment (as
+    `stateful_eval` does: a sanitised name must not be a key of the environment): (tree, aliases, text), or Nones
+    on SyntaxError. The names reported by the library are mapped back through the aliases, so the tables obtained with
+    and without environment give the same variables."""
     from formulaic.utils.code import sanitize_variable_names
 
     aliases: dict = {}
     try:
-        s = sanitize_variable_names(expr, {}, aliases)
+        s = sanitize_variable_names(expr, dict.fromkeys(ENV_KEYS if keys is None else keys), aliases)
         tree = ast.parse(s, mode="eval")
     except SyntaxError:
         return None, None, None
@@ -166,12 +262,33 @@ def ctx_value(spec):
         return lambda *a, **kw: a[0] + c
     if k == "hof":
         return lambda v: (lambda w: v + w)
+    if k == "ap":
+        return lambda fn, *a: fn(*a)
+    if k == "spy":
+        return _make_spy()
     if k == "ns":
         return types.SimpleNamespace(**{a: ctx_value(s) for a, s in spec["attrs"].items()})
     raise ValueError(k)
 
 
-CTX_FORMS = ["dict", "lm", "nested", "named", "captured"]
+# a stateful transform supplied by the caller that looks at the `_context` / `_metadata` / `_spec` / `_state` it is handed
+SPY = dict(on=False, keys=[], log=[])
+
+
+def _make_spy():
+    from formulaic.utils.stateful_transforms import stateful_transform
+
+    @stateful_transform
+    def spy(data, *args, _context=None, _metadata=None, _spec=None, _state=None, **kwargs):
+        if SPY["on"]:
+            seen = [[k, k in _context, _context.get_with_layer_name(k)[1]] for k in SPY["keys"]] if hasattr(_context, "get_with_layer_name") else None
+            SPY["log"].append(dict(seen=seen, spec=_spec is not None, state=isinstance(_state, dict)))
+        return data + 0
+
+    return spy
+
+
+CTX_FORMS = ["dict", "lm", "nested", "named", "captured", "grown", "named-data"]
 NAMED_SUBLAYER = "glob"
 
 
@@ -188,6 +305,9 @@ def build_context(c):
     lm        LayeredMapping(upper, lower)                      (unnamed; the shape of capture_context())
     nested    LayeredMapping(LayeredMapping(upper), lower)      (unnamed inside unnamed)
     named     LayeredMapping(upper, LayeredMapping(lower, name="glob"))
+    named-data  LayeredMapping(upper, LayeredMapping(lower, name="data"))
+    grown     LayeredMapping(upper) whose `named_layers` were looked at, and which is then extended in place with
+              LayeredMapping(lower, name="glob") (the cached named layers must not survive `with_layers(inplace=True)`)
     captured  capture_context(0) inside a function whose locals are the identifier keys of `upper` and whose
               globals hold everything else (the frame capture `model_matrix(..., context=<int>)` performs)"""
     from formulaic.utils.context import capture_context
@@ -203,6 +323,14 @@ def build_context(c):
         return LayeredMapping(LayeredMapping(upper), lower)
     if form == "named":
         return LayeredMapping(upper, LayeredMapping(lower, name=NAMED_SUBLAYER))
+    if form == "named-data":
+        # a sub-layer of the caller's context that is itself called `data`: it must not pass for the data layer
+        return LayeredMapping(upper, LayeredMapping(lower, name="data"))
+    if form == "grown":
+        lm = LayeredMapping(upper)
+        assert lm.named_layers == {}
+        lm.with_layers(LayeredMapping(lower, name=NAMED_SUBLAYER), prepend=False, inplace=True)
+        return lm
     if form == "captured":
         loc = {k: v for k, v in upper.items() if k.isidentifier()}
         glob = {"capture_context": capture_context, **lower, **{k: v for k, v in upper.items() if k not in loc}}
@@ -225,10 +353,11 @@ def describe_context(obj):
 def _ctx_source(key, c):
     """independent statement of the source a context key must be reported with: `context`, extended by the names of
     the named sub-layers on the way to the layer holding the key"""
-    if c.get("ctx_form", "dict") == "named":
+    form = c.get("ctx_form", "dict")
+    if form in ("named", "grown", "named-data"):
         upper, lower = _ctx_parts(c)
         if key not in upper and key in lower:
-            return "context:" + NAMED_SUBLAYER
+            return "context:" + ("data" if form == "named-data" else NAMED_SUBLAYER)
     return "context"
 
 
@@ -244,7 +373,7 @@ def first_binding(name, data, ctx):
         return "num"
     if name in ctx:
         k = ctx[name]["k"]
-        return "num" if k in ("arr", "num") else k
+        return "num" if k in ("arr", "num") else "fn" if k == "spy" else k
     if name in TRANSFORMS:
         return "mod" if name == "np" else "fn"
     if name in ("abs",):
@@ -282,16 +411,62 @@ class Gen:
         self.fns = list(dict.fromkeys(n for n in list(ctx) + TRANSFORM_CALLABLES + ["abs"] if first_binding(n, data, ctx) == "fn"))
         self.ctx_fns = [n for n in ctx if first_binding(n, data, ctx) == "fn"]
         self.hofs = [n for n in ctx if first_binding(n, data, ctx) == "hof"]
+        self.aps = [n for n in ctx if first_binding(n, data, ctx) == "ap"]
+        # builtins that are not shadowed by a layer (used around comprehensions)
+        self.sum_ok = first_binding("sum", data, ctx) is None
+        self.zip_ok = first_binding("zip", data, ctx) is None
         self.nss = [n for n in ctx if first_binding(n, data, ctx) == "ns"]
         self.np_ok = first_binding("np", data, ctx) == "mod"
         self.unbound = rng.random() < 0.08
 
     # vector-valued expressions inside Python code
+    def local(self):
+        """a local name (lambda parameter / comprehension target): sometimes the name of a data column or context entry"""
+        r = self.rng
+        pool = ["a", "b", "t", "k", "v"] + [n for n in list(self.data) + list(self.ctx) if n.isidentifier()]
+        return r.choice(pool)
+
+    def scoped(self, depth):
+        """a vector-valued expression with a binding construct: every closure is called, every iterable is non-empty and
+        every condition holds at least once, so each sub-expression is evaluated"""
+        r = self.rng
+        p = r.random()
+        a, b = self.local(), self.local()
+        while b == a:
+            b = self.local()
+        vec = q(r.choice(self.pyvecs))
+        inner = lambda: self.val(depth + 1)  # noqa: E731  (may mention the local names: they then denote the local value)
+        if p < 0.22:
+            return f"(lambda {a}: {a} + {inner()})({self.val(depth + 1)})"
+        if p < 0.32:
+            return f"(lambda {a}, {b}={self.val(depth + 1)}: {a} * {b} + {inner()})({self.val(depth + 1)})"
+        if p < 0.42 and self.aps:
+            return f"{r.choice(self.aps)}(lambda {a}: {a} - {inner()}, {self.val(depth + 1)})"
+        if not self.sum_ok:
+            return f"(lambda {a}: {a} + {inner()})({self.val(depth + 1)})"
+        if p < 0.56:
+            cond = r.choice(["", "", f" if {a} > 0", f" if {a} == {a}"])
+            return f"sum([{a} * {inner()} for {a} in {vec}{cond}])"
+        if p < 0.66:
+            return f"sum({a} + {inner()} for {a} in {vec})"
+        if p < 0.76:
+            return f"sum([{a} * {b} + {inner()} for {a} in {vec} for {b} in [1, 2]])"
+        if p < 0.84 and self.zip_ok:
+            return f"sum([{a} * {b} for {a}, {b} in zip({vec}, [{inner()}, {inner()}])])"
+        if p < 0.92:
+            return f"sum({{{a}: {inner()} for {a} in [1, 2]}}.values())"
+        if p < 0.96:
+            sc = r.choice(self.scalars) if self.scalars else "2"
+            return f"({self.val(depth + 1)} * sum({{{a} + {sc} for {a} in [1, {sc}]}}))"
+        return f"sum([{a} for {a} in [{inner()}, {self.val(depth + 1)}]])"
+
     def val(self, depth=0):
         r = self.rng
         if self.unbound and r.random() < 0.3:
             return "zz"
         p = r.random()
+        if depth < 2 and r.random() < 0.12:
+            return self.scoped(depth)
         if depth < 2 and p < 0.22:
             return self.callexpr(depth + 1)
         if p < 0.34 and self.attrvecs:
@@ -336,6 +511,9 @@ class Gen:
     def factor(self):
         r = self.rng
         p = r.random()
+        if r.random() < 0.04 and first_binding("Q", self.data, self.ctx) == "fn":
+            # patsy's quoting transform: the column is named by a string
+            return f'Q("{r.choice(list(self.data))}")'
         if p < 0.35:
             n = "zz" if (self.unbound and r.random() < 0.3) else r.choice(self.vecs)
             return q(n)
@@ -364,7 +542,7 @@ class Gen:
 
 def gen_env(rng):
     ncol = rng.randint(2, 6)
-    pool = PLAIN_COLS * 3 + SPECIAL_COLS + QUOTED_COLS * 2
+    pool = PLAIN_COLS * 3 + SPECIAL_COLS + QUOTED_COLS * 2 + ALIAS_COLS
     cols = []
     while len(cols) < ncol:
         c = rng.choice(pool)
@@ -389,12 +567,19 @@ def gen_env(rng):
             n = rng.choice(["abs", "float", "id", "len"])
             ctx[n] = dict(k="fn", c=500) if n == "abs" else arr
         else:
-            n = rng.choice(["u", "v", "f", "g", "h", "ns", "k"])
+            n = rng.choice(["u", "v", "f", "g", "h", "ns", "k", "ap", "a", "spy", "spy"])
             ctx[n] = {
-                "u": arr, "v": dict(k="num", v=rng.randint(2, 5)), "k": arr,
+                "u": arr, "v": dict(k="num", v=rng.randint(2, 5)), "k": arr, "a": arr, "ap": dict(k="ap"), "spy": dict(k="spy"),
                 "f": dict(k="fn", c=1000), "g": dict(k="fn", c=2000), "h": dict(k="hof"),
                 "ns": dict(k="ns", attrs=dict(f=dict(k="fn", c=3000), v=arr)),
             }[n]
+    if rng.random() < 0.03:
+        # a name `stateful_eval` reserves for itself, as a data column or in the caller's context
+        r = rng.choice(RESERVED_NAMES)
+        if rng.random() < 0.5:
+            data[r] = [rng.randint(1, 9) for _ in range(NROWS)]
+        else:
+            ctx[r] = dict(k="arr", v=[rng.randint(11, 19) for _ in range(NROWS)])
     return data, ctx
 
 
@@ -420,11 +605,89 @@ FIXED = [
          ctx={"u": dict(k="arr", v=[11, 12, 13, 14]), "f": dict(k="fn", c=7)}, ctx_form="nested", ctx_split=1),
     dict(kind="formula", formula="x + u + f(u)", data={"x": [1, 2, 3, 4]},
          ctx={"u": dict(k="arr", v=[11, 12, 13, 14]), "f": dict(k="fn", c=7)}, ctx_form="named", ctx_split=1),
-    dict(kind="dot", formula="y ~ .", data={"x": [1, 2, 3, 4], "y": [2, 3, 4, 5], "C": [1, 1, 2, 2], "a b": [1, 2, 2, 1]}, ctx={}),
-    dict(kind="dot", formula="log(y) + `a b` ~ .", data={"x": [1, 2, 3, 4], "y": [2, 3, 4, 5], "a b": [1, 2, 2, 1]}, ctx={}),
-    dict(kind="dot", formula="log(`a b`) ~ .", data={"x": [1, 2, 3, 4], "a b": [1, 2, 2, 1]}, ctx={}),
-    dict(kind="dot", formula="log(C) ~ .", data={"x": [1, 2, 3, 4], "C": [1, 2, 2, 1]}, ctx={}),
+    dict(kind="formula", formula="{(lambda v, k=y: v * k + z)(x)} + {sum([a + w for a in x if a > 0])}",
+         data={"x": [1, 2, 3, 4], "y": [2, 3, 4, 5], "z": [1, 1, 2, 2], "w": [5, 6, 7, 8], "a": [9, 9, 9, 9], "v": [7, 7, 7, 7]}, ctx={}),
+    dict(kind="formula", formula="{sum(x * y for x in z)} + ap(lambda t: t + u, w)",
+         data={"x": [1, 2, 3, 4], "y": [2, 3, 4, 5], "z": [1, 1, 2, 2], "w": [5, 6, 7, 8]},
+         ctx={"ap": dict(k="ap"), "u": dict(k="arr", v=[11, 12, 13, 14]), "t": dict(k="arr", v=[15, 15, 15, 15])}),
+    dict(kind="formula", formula="{sum([a * b for a, b in zip(x, [y, z])])} + {sum({k: w for k in [1, 2]}.values())} + {sum([x for x in [x, y]])}",
+         data={"x": [1, 2, 3, 4], "y": [2, 3, 4, 5], "z": [1, 1, 2, 2], "w": [5, 6, 7, 8], "k": [3, 3, 3, 3]}, ctx={}),
+    dict(kind="formula", formula="{(lambda v: v + zz)(x)} + y", data={"x": [1, 2, 3, 4], "y": [2, 3, 4, 5]}, ctx={}),
+    dict(kind="formula", formula="x + {y + 1}", data={"x": [1, 2, 3, 4], "y": [2, 3, 4, 5], "__FORMULAIC_STATE__": [1, 1, 1, 1]}, ctx={}),
+    dict(kind="formula", formula="x + log(y)", data={"x": [1, 2, 3, 4], "y": [2, 3, 4, 5]}, ctx={"__FORMULAIC_CONTEXT__": dict(k="arr", v=[11, 12, 13, 14])}),
+    dict(kind="formula", formula="x + spy(y, k=x) + center(`y`):spy(`a b`)", data={"x": [1, 2, 3, 4], "y": [2, 3, 4, 5], "a b": [3, 4, 5, 6]},
+         ctx={"spy": dict(k="spy"), "y": dict(k="arr", v=[11, 12, 13, 14]), "w": dict(k="arr", v=[15, 16, 17, 18])}, ctx_form="named", ctx_split=1),
+    dict(kind="formula", formula="x + u + f(w)", data={"x": [1, 2, 3, 4]},
+         ctx={"u": dict(k="arr", v=[11, 12, 13, 14]), "f": dict(k="fn", c=7), "w": dict(k="arr", v=[15, 16, 17, 18])}, ctx_form="grown", ctx_split=1),
+    dict(kind="formula", formula="{`a b` + `a_b`} + {`1a` * _1a} + log(a_b):log(`a b`)",
+         data={"a b": [1, 2, 3, 4], "a_b": [10, 20, 30, 40], "1a": [2, 3, 4, 5], "_1a": [5, 5, 6, 6]}, ctx={}),
+    dict(kind="formula", formula="{(lambda v: v.clip(0))(x)} + {sum([a.clip(0) for a in [x, y]])} + {(lambda center: center(x))(abs)}",
+         data={"x": [1, 2, 3, 4], "y": [2, 3, 4, 5]}, ctx={"v": dict(k="num", v=3), "a": dict(k="num", v=4)}),
+    dict(kind="formula", formula="y + log(z) ~ x + f(x) | {x * w} + `a b` | z", data={"x": [1, 2, 3, 4], "y": [2, 3, 4, 5], "z": [1, 1, 2, 2], "w": [5, 6, 7, 8], "a b": [3, 4, 5, 6]},
+         ctx={"f": dict(k="fn", c=7), "w": dict(k="arr", v=[11, 12, 13, 14])}),
+    dict(kind="formula", formula="x + u + f(w)", data={"x": [1, 2, 3, 4], "w": [2, 2, 3, 3]},
+         ctx={"u": dict(k="arr", v=[11, 12, 13, 14]), "f": dict(k="fn", c=7), "w": dict(k="arr", v=[15, 16, 17, 18]), "m": dict(k="arr", v=[1, 1, 1, 1])},
+         ctx_form="named-data", ctx_split=1),
+    dict(kind="dot", tpl="x ~ § + (§):w", data={"x": [1, 2, 3, 4], "w": [2, 2, 3, 3], "z": [5, 6, 7, 8]},
+         ctx={"u": dict(k="arr", v=[11, 12, 13, 14]), "m": dict(k="arr", v=[1, 1, 1, 1])}, ctx_form="named-data", ctx_split=1),
+    dict(kind="formula", formula='Q("a b") + x + Q("y"):y', data={"x": [1, 2, 3, 4], "y": [2, 3, 4, 5], "a b": [3, 4, 5, 6]}, ctx={}),
+    dict(kind="dot", tpl="y ~ §", data={"x": [1, 2, 3, 4], "y": [2, 3, 4, 5], "C": [1, 1, 2, 2], "a b": [1, 2, 2, 1]}, ctx={}),
+    dict(kind="dot", tpl="log(y) + `a b` ~ §", data={"x": [1, 2, 3, 4], "y": [2, 3, 4, 5], "a b": [1, 2, 2, 1]}, ctx={}),
+    dict(kind="dot", tpl="log(`a b`) ~ §", data={"x": [1, 2, 3, 4], "a b": [1, 2, 2, 1]}, ctx={}),
+    dict(kind="dot", tpl="log(C) ~ §", data={"x": [1, 2, 3, 4], "C": [1, 2, 2, 1]}, ctx={}),
 ]
+
+DOT_DATA = {"y": [2, 3, 4, 5], "z": [1, 3, 2, 4], "a": [1, 1, 2, 2], "b": [3, 1, 4, 1], "c": [2, 7, 1, 8], "a b": [1, 2, 2, 1]}
+DOT_CTX = {"a": dict(k="arr", v=[11, 12, 13, 14]), "u": dict(k="arr", v=[15, 16, 17, 18])}
+# every occurrence of `.` (§) must expand alike: several dots, parentheses, interactions, several right-hand parts,
+# Python-expression and back-quoted left-hand sides
+DOT_TABLE = [
+    "y ~ § | §",
+    "y ~ § + §:c",
+    "np.log(y) ~ § - a + (§):b",
+    "y + z ~ § | § | a",
+    "`a b` ~ (§ + c):b + §",
+    "log(`a b`) + y ~ (§) | §:c",
+    "{y + 1} ~ 0 + § + (§ - a)",
+    "y ~ (§):(§)",
+    "y ~ (§)**2 + §",
+    "y + `a b` ~ § + a | (§):z | §",
+    "{z * `a b`} ~ §:§ + §",
+    "y ~ a + § | b:(§) - c",
+]
+FIXED += [dict(kind="dot", tpl=t, data=DOT_DATA, ctx=(DOT_CTX if i % 3 == 2 else {}), ctx_form=("lm" if i % 3 == 2 else "dict"), ctx_split=1)
+          for i, t in enumerate(DOT_TABLE)]
+FIXED += [
+    dict(kind="dot", tpl="y + `a b` ~ § | (§):c", data=DOT_DATA, ctx=DOT_CTX, ctx_form="named", ctx_split=1, mat="narwhals"),
+    dict(kind="dot", tpl="y ~ § + (§):b", data=DOT_DATA, ctx={}, avail_mode="explicit", avail_list=["b", "q", "y", "b", "a b", "a"]),
+    dict(kind="dot", tpl="log(y) ~ § | §", data=DOT_DATA, ctx={}, avail_mode="none"),
+]
+for _c in FIXED:
+    if _c["kind"] == "dot":
+        _c["formula"] = _c["tpl"].replace("§", ".")
+
+DOT_PIECES = ["§", "§", "(§)", "§:{c}", "(§):{c}", "{c}:§", "{c}:(§)", "§ - {c}", "(§ - {c})", "{c}", "(§)**2", "(§ + {c}):{d}", "§:§"]
+
+
+def gen_dot_rhs(rng, free):
+    """a right-hand side with 2-3 occurrences of `.` (§): sums, interactions, parentheses, several parts"""
+    while True:
+        nparts = rng.choice([1, 1, 2, 2, 3])
+        parts = []
+        for _ in range(nparts):
+            pieces = []
+            for _ in range(rng.randint(1, 3)):
+                tpl = rng.choice(DOT_PIECES)
+                if ("{c}" in tpl or "{d}" in tpl) and not free:
+                    tpl = "§"
+                pieces.append(tpl.format(c=q(rng.choice(free)) if free else "", d=q(rng.choice(free)) if free else ""))
+            part = " + ".join(pieces)
+            if rng.random() < 0.15:
+                part = "0 + " + part
+            parts.append(part)
+        rhs = " | ".join(parts)
+        if 2 <= rhs.count("§") <= 3:
+            return rhs
 
 
 def cases(rng, tier):
@@ -435,14 +698,31 @@ def cases(rng, tier):
         data, ctx = gen_env(rng)
         g = Gen(rng, data, ctx, wild=rng.random() < 0.3)
         # how the caller supplies the context: plain dict or (nested / named / captured) LayeredMapping
-        form = rng.choice(["dict", "dict", "lm", "lm", "nested", "named", "captured", "captured"]) if ctx else rng.choice(["dict", "dict", "captured"])
+        form = rng.choice(["dict", "dict", "lm", "lm", "nested", "named", "grown", "named-data", "captured", "captured"]) if ctx else rng.choice(["dict", "dict", "captured"])
         shape = dict(ctx_form=form, ctx_split=rng.randint(0, len(ctx)))
-        if rng.random() < 0.15:
+        if rng.random() < 0.2:
             lhs = " + ".join(g.factor() for _ in range(rng.choice([1, 1, 2])))
-            yield dict(kind="dot", formula=f"{lhs} ~ {rng.choice(['.', '.', '0 + .'])}", data=data, ctx=ctx, **shape)
+            # explicit right-hand-side names: data columns the left-hand side does not mention at all
+            free = [col for col in data if col.isidentifier() and col not in lhs]
+            rhs = rng.choice(["§", "§", "0 + §"]) if rng.random() < 0.3 else gen_dot_rhs(rng, free)
+            tpl = f"{lhs} ~ {rhs}"
+            case = dict(kind="dot", tpl=tpl, formula=tpl.replace("§", "."), data=data, ctx=ctx, **shape)
+            if rng.random() < 0.25:
+                case.update(mat="narwhals")
+            p = rng.random()
+            if p < 0.12:
+                # the available variables are named explicitly: any list (order, repetitions, names that are no columns)
+                names = list(data) + rng.sample(["p", "q", "C", "a b"], 2)
+                case.update(avail_mode="explicit", avail_list=[rng.choice(names) for _ in range(rng.randint(1, 6))])
+            elif p < 0.16:
+                case.update(avail_mode="none")
+            yield case
             continue
         terms = [g.term() for _ in range(rng.randint(1, 4))]
         f = " + ".join(terms)
+        if rng.random() < 0.12:
+            # several right-hand parts: every part becomes a model spec of its own
+            f += " | " + " + ".join(g.term() for _ in range(rng.randint(1, 2)))
         if rng.random() < 0.25:
             f = g.factor() + " ~ " + f
         if rng.random() < 0.1:
@@ -467,6 +747,18 @@ def describe(c):
         tags.append("ctx")
     if c.get("ctx_form", "dict") != "dict":
         tags.append("ctx=" + c["ctx_form"])
+    if "lambda" in f or " for " in f:
+        tags.append("scoped")
+    if c["kind"] == "dot":
+        tags.append(f"dots={_tpl(c).count('§')}")
+        if c.get("avail_mode", "layers") != "layers":
+            tags.append("avail=" + c["avail_mode"])
+        if c.get("mat", "pandas") != "pandas":
+            tags.append("mat=" + c["mat"])
+    elif "|" in f:
+        tags.append("parts")
+    if any(k in RESERVED_NAMES for k in list(c["data"]) + list(c["ctx"])):
+        tags.append("reserved")
     return ",".join(tags)
 
 
@@ -519,11 +811,16 @@ def _spec_obs(ms):
     for s in specs:
         for src, vs in s.variables_by_source.items():
             by[src] |= {str(v) for v in vs}
+    fvars = collections.defaultdict(set)
+    for s in specs:
+        for factor, vs in s.factor_variables.items():
+            fvars[factor.expr] |= {str(v) for v in vs}
     return dict(
         ok=True,
         vars=_varlist(allvars),
         req=sorted(str(v) for v in ms.required_variables),
         by_source=sorted(([k, sorted(v)] for k, v in by.items()), key=lambda kv: str(kv[0])),
+        fvars=sorted([k, sorted(v)] for k, v in fvars.items()),
     )
 
 
@@ -546,14 +843,12 @@ def _sweep(spec, df, ctx, names):
     return dict(restricted=restricted, removed=removed)
 
 
-def _factors(formula):
+def _parts(formula):
+    """the factors of every part (`SimpleFormula`) of the formula, in `_map` order"""
     out = []
-    seen = []
 
     def one(sf):
-        for term in sf:
-            for f in term.factors:
-                out.append(f)
+        out.append([f for term in sf for f in term.factors])
 
     if hasattr(formula, "_map"):
         formula._map(one)
@@ -610,13 +905,15 @@ def impl(c):
 
     df = frame(c["data"])
     ctx = build_context(c)
+    ENV_KEYS[:] = env_keys(c, ctx)
     if c["kind"] == "dot":
         return impl_dot(c, df, ctx)
     try:
         F = Formula(c["formula"])
     except Exception as e:
-        return dict(parse_error=type(e).__name__)
-    fs = _factors(F)
+        return dict(parse_error=pc.exc_class(e), ctx_desc=describe_context(ctx), codes=_token_codes(c["formula"]))
+    parts = _parts(F)
+    fs = [f for p in parts for f in p]
     factors, bfs = [], []
     for f in fs:
         m = f.eval_method.value
@@ -635,16 +932,30 @@ def impl(c):
         else:
             bfs.append(None)
         factors.append(d)
-    out = dict(factors=factors, bfs=bfs, ctx_desc=describe_context(ctx))
+    sizes = [len(p) for p in parts]
+    out = dict(factors=factors, parts=[factors[sum(sizes[:i]):sum(sizes[:i + 1])] for i in range(len(sizes))],
+               bfs=[[k, v] for k, v in sorted({f.expr: b for f, b in zip(fs, bfs)}.items())], formula=pc.canon_val(F), codes=_token_codes(c["formula"]),
+               ctx_desc=describe_context(ctx), ctx_keys=[str(k) for k in ctx])
+    out.update(_named_obs(PandasMaterializer(df, context=ctx).layered_context))
     # before materialisation
     try:
         pre = F.required_variables
         out["pre"] = dict(vars=_varlist(pre, with_source=False))
+        # a model spec that has not been materialised yet falls back to the formula
+        from formulaic import ModelSpec
+
+        out["pre"]["spec"] = sorted(str(v) for v in ModelSpec.from_spec(F).required_variables)
     except Exception as e:
         pre = None
         out["pre"] = dict(error=type(e).__name__)
     out["contract"] = _alias_contract(c, factors)
-    full, mm = _run(F, df, ctx)
+    SPY.update(on=True, keys=list(c["data"]) + [k for k in c["ctx"] if k not in c["data"]] + ["log", "C", "nosuch"], log=[])
+    try:
+        full, mm = _run(F, df, ctx)
+    finally:
+        SPY["on"] = False
+    out["spy"] = list(SPY["log"])
+    out["spy_keys"] = list(SPY["keys"])
     out["full"] = full
     if "error" in full:
         out["error"] = f"{full['error']}<-{full.get('cause')}"
@@ -658,56 +969,128 @@ def impl(c):
     return out
 
 
-def impl_dot(c, df, ctx):
-    from formulaic import Formula
-    from formulaic.materializers import PandasMaterializer
+PROBE = ["data", "context", "transforms", NAMED_SUBLAYER, "nosuch"]
+TOKEN_PROBES = ["x +", "f(x", "np.log(`a b`) + g(z, k=w) + C(u)", "sum([a * y for a in x])"]
+
+
+def _named_obs(lc):
+    """named-layer lookups on the materializer's layered context: `named_layers` and `getattr(lc, name)`"""
+    probe = []
+    for n in PROBE:
+        try:
+            probe.append([n, [str(k) for k in getattr(lc, n)]])
+        except AttributeError:
+            probe.append([n, "AttributeError"])
+    return dict(named=sorted(lc.named_layers), probe=probe)
+
+
+def canon_specs(ms):
+    """`required_variables` of every part of a (structured) model spec, in the shape of `pc.canon_val`"""
+    from formulaic.utils.structured import Structured
+
+    if isinstance(ms, Structured):
+        return {"s": {k: canon_specs(v) for k, v in ms._structure.items()}}
+    if isinstance(ms, tuple):
+        return {"t": [canon_specs(x) for x in ms]}
+    return sorted(str(v) for v in ms.required_variables)
+
+
+def _sanitized_tokens(formula):
+    """the tokens the real tokenizer + sanitiser yield before they raise (if they do)"""
     from formulaic.parser.algos.sanitize_tokens import sanitize_tokens
     from formulaic.parser.algos.tokenize import tokenize
 
-    mat = PandasMaterializer(df, context=ctx)
+    toks = []
     try:
-        toks = list(sanitize_tokens(tokenize(c["formula"])))
-    except Exception as e:
-        return dict(parse_error=type(e).__name__)
-    lhs = []
-    for t in toks:
-        if t.token == "~":
-            break
-        k = t.kind.value
-        d = dict(text=t.token, kind=k if k in ("name", "python") else "other")
-        if k == "python":
-            d["code"] = code_json(t.token)
-        lhs.append(d)
-    out = dict(lhs=lhs)
+        for t in sanitize_tokens(tokenize(formula)):
+            toks.append(t)
+    except Exception:
+        pass
+    return toks
+
+
+def _token_codes(formula):
+    """what CPython makes of every Python token of the formula (keyed by the normalised text, which is also the
+    expression of the factor the token becomes)"""
+    codes, seen = [], set()
+    for t in _sanitized_tokens(formula):
+        if t.kind.value == "python" and t.token not in seen:
+            seen.add(t.token)
+            codes.append(dict(k=t.token, code=code_json(t.token)))
+    return codes
+
+
+def impl_dot(c, df, ctx):
+    from formulaic import Formula
+    from formulaic.materializers import PandasMaterializer
+
+    if c.get("mat", "pandas") == "narwhals":
+        # the other materializer of the package (picked for Arrow / polars data): same layered context over a dict of columns
+        import pyarrow
+        from formulaic.materializers import NarwhalsMaterializer
+
+        mat = NarwhalsMaterializer(pyarrow.Table.from_pandas(df, preserve_index=False), context=ctx)
+    else:
+        mat = PandasMaterializer(df, context=ctx)
+    out = dict(ctx_desc=describe_context(ctx), ctx_keys=[str(k) for k in ctx])
+    out.update(_named_obs(mat.layered_context))
+    out["codes"] = _token_codes(c["formula"])
+    # `Token.required_variables` on its own: a Python token that cannot be parsed contributes nothing (the formula fails
+    # more gracefully later); a well-formed one its free, non-transform names
+    from formulaic.parser.types import Token
+
+    out["tokprobe"] = []
+    for text in TOKEN_PROBES:
+        out["tokprobe"].append(dict(text=text, code=code_json(text), vars=sorted(str(v) for v in Token(text, kind="python").required_variables)))
+    mode = c.get("avail_mode", "layers")
     try:
-        F = Formula.from_spec(c["formula"], context=mat.layered_context)
+        if mode == "explicit":
+            # the documented way of telling the parser which variables exist without any data
+            F = Formula.from_spec(c["formula"], context={"__formulaic_variables_available__": list(c["avail_list"])})
+        elif mode == "none":
+            F = Formula.from_spec(c["formula"], context=dict(ctx) if isinstance(ctx, dict) else {})
+        else:
+            F = Formula.from_spec(c["formula"], context=mat.layered_context)
     except Exception as e:
-        out["parse_error"] = type(e).__name__
+        out["parse_error"] = pc.exc_class(e)
         return out
-    out["terms"] = [[f.expr for f in t.factors] for t in F.rhs if str(t) != "1"]
-    out["lhs_factors"] = [dict(x=f.expr, m=f.eval_method.value) for t in F.lhs for f in t.factors]
+    out["formula"] = pc.canon_val(F)
+    lhs = getattr(F, "lhs", None)
+    out["lhs_factors"] = [dict(x=f.expr, m=f.eval_method.value) for t in (lhs if lhs is not None else []) for f in t.factors]
+    if mode != "layers":
+        return out
     err, mm = _outcome(lambda: mat.get_model_matrix(F, na_action="ignore"))
     out["full"] = err or dict(ok=True)
+    if mm is not None:
+        out["parts"] = canon_specs(mm.model_spec)
     return out
 
 
 def request(c, o):
-    if "parse_error" in o and "lhs" not in o:
+    if "ctx_desc" not in o:
         return dict(op="none")
     if c["kind"] == "dot":
-        return dict(op="dot", lhs=o["lhs"], cols=list(c["data"]))
-    return dict(op="formula", factors=o["factors"], data=list(c["data"]), context=o["ctx_desc"], builtins=BUILTIN_NAMES)
+        r = pc.request_for(c["formula"], "dot")
+        r.update(pyvars=[], codes=o["codes"], data=list(c["data"]), context=o["ctx_desc"], builtins=sorted(_LAST_RESORT), probe=PROBE,
+                 avail_mode=c.get("avail_mode", "layers"), avail_list=list(c.get("avail_list", [])),
+                 tokprobe=[dict(text=t["text"], code=t["code"]) for t in o.get("tokprobe", [])])
+        return r
+    # the model parses the formula string itself (the whole parser model); CPython's view of the Python tokens goes along
+    r = pc.request_for(c["formula"], "formula")
+    r.update(pyvars=[], codes=o["codes"], data=list(c["data"]), context=o["ctx_desc"], builtins=sorted(_LAST_RESORT), probe=PROBE,
+             ctxkeys=o.get("spy_keys", []))
+    return r
 
 
 # ----------------------------------------------------------------------------- model vs implementation
 
 
-_SUFFIX = re.compile(r"^(_?\w*?)_[abcefghiklmnopqrstuvwxyz]{10}(\..*)$")
+_SUFFIX = re.compile(r"^(_?\w*?)_\d+(\..*)$")
 
 
 def _norm_name(n):
-    """`sanitize_variable_name` appends a random 10-letter suffix when the sanitised name is already bound (second
-    occurrence of the same back-quoted name in one expression); the suffix only ever leaks through finding C17-F2."""
+    """`sanitize_variable_name` appends a numeric suffix when the sanitised name is already in use (which depends on the
+    environment it is run against); the sanitised name only ever leaks through finding C17-F2."""
     m = _SUFFIX.match(n)
     return m.group(1) + m.group(2) if m else n
 
@@ -747,6 +1130,9 @@ def _cmp_run(tag, io, mo, compare_vars=True):
         return f"{tag}: variables differ: impl {_norm_vars(io['vars'])} vs model {_norm_vars(mo['vars'])}"
     if sorted(io["req"]) != sorted(mo["req"]):
         return f"{tag}: required_variables differ: impl {sorted(io['req'])} vs model {sorted(mo['req'])}"
+    if "fvars" in io and "fvars" in mo:
+        if [[k, sorted(set(map(_norm_name, v)))] for k, v in io["fvars"]] != sorted([k, sorted(set(map(_norm_name, v)))] for k, v in mo["fvars"]):
+            return f"{tag}: factor_variables differ: impl {io['fvars']} vs model {sorted(mo['fvars'])}"
     ib = sorted(([k, sorted(v)] for k, v in io["by_source"]), key=lambda kv: str(kv[0]))
     mb = sorted(([k, sorted(v)] for k, v in mo["by_source"]), key=lambda kv: str(kv[0]))
     if ib != mb:
@@ -768,20 +1154,64 @@ def _cmp_sweep(tag, isw, msw, compare_vars=True):
     return None
 
 
+def _sorted_parts(x):
+    if isinstance(x, dict) and "s" in x:
+        return {"s": {k: _sorted_parts(v) for k, v in x["s"].items()}}
+    if isinstance(x, dict) and "t" in x:
+        return {"t": [_sorted_parts(v) for v in x["t"]]}
+    return sorted(x) if isinstance(x, list) else x
+
+
+def _cmp_named(o, m):
+    if sorted(set(m.get("named", []))) != o["named"]:
+        return f"named_layers differ: impl {o['named']} vs model {sorted(set(m.get('named', [])))}"
+    if m.get("probe") != o["probe"]:
+        return f"named-layer lookups differ: impl {o['probe']} vs model {m.get('probe')}"
+    return None
+
+
 def agree(c, o, m):
+    ENV_KEYS[:] = env_keys(c)
     if "driver_error" in m:
         return "driver: " + m["driver_error"][:300]
-    if "parse_error" in o and "lhs" not in o:
+    if "parse_error" in o and "ctx_desc" not in o:
         return None
+    if c["kind"] != "dot" and "parse_error" in o:
+        return None if m.get("error") == o["parse_error"] else f"Formula(...) raises {o['parse_error']}, the parser model gives {m.get('error', 'a formula')}"
+    if c["kind"] != "dot":
+        if "error" in m and "bfs" not in m:
+            return f"the parser model rejects the formula ({m['error']}), the implementation parses it"
+        if m.get("formula") != o["formula"]:
+            return f"Formula(...) differs from the parser model: impl {o['formula']} vs model {m.get('formula')}"
     if c["kind"] == "dot":
         if "parse_error" in o:
-            return None if "error" in m else f"impl {o['parse_error']} vs model terms"
+            return None if m.get("error") == o["parse_error"] else f"impl {o['parse_error']} vs model {m.get('error', 'a formula')}"
         if "error" in m:
-            return f"model {m['error']} vs impl terms"
-        return None if o["terms"] == m["terms"] else f"`.` expansion differs: impl {o['terms']} vs model {m['terms']}"
+            return f"model {m['error']} vs impl formula"
+        w = _cmp_named(o, m)
+        if w:
+            return w
+        if [sorted(x) for x in m.get("tokprobe", [])] != [t["vars"] for t in o.get("tokprobe", [])]:
+            return f"Token.required_variables differs: impl {[t['vars'] for t in o.get('tokprobe', [])]} vs model {m.get('tokprobe')}"
+        if c.get("avail_mode", "layers") == "layers" and m.get("available") != list(dict.fromkeys(c["data"])):
+            return f"variables available to `.`: model {m.get('available')} vs data columns {list(c['data'])}"
+        if o["formula"] != m["formula"]:
+            return f"`.` expansion differs: impl {o['formula']} vs model {m['formula']}"
+        if "full" not in o:
+            return None
+        w = _cmp_run("all parts", o["full"], m["full"], compare_vars=False)
+        if w:
+            return w
+        if "parts" in o and m.get("parts") is not None and "error" not in m["full"]:
+            if _sorted_parts(o["parts"]) != _sorted_parts(m["parts"]):
+                return f"required_variables per part differ: impl {_sorted_parts(o['parts'])} vs model {_sorted_parts(m['parts'])}"
+        return None
+    w = _cmp_named(o, m)
+    if w:
+        return w
     if o.get("contract"):
         return "contract of sanitize_variable_names not met on this case: " + o["contract"]
-    if o["bfs"] != m["bfs"]:
+    if [list(x) for x in o["bfs"]] != [[k, v] for k, v in sorted({x[0]: x[1] for x in m["bfs"]}.items())]:
         return f"_get_ast_node_variables differs: impl {o['bfs']} vs model {m['bfs']}"
     if "error" in o["pre"] or "error" in m["pre"]:
         if o["pre"].get("error") != m["pre"].get("error"):
@@ -789,9 +1219,19 @@ def agree(c, o, m):
     else:
         if _norm_vars(o["pre"]["vars"], False) != _norm_vars(m["pre"]["vars"], False):
             return f"required_variables (before) differ: impl {_norm_vars(o['pre']['vars'], False)} vs model {_norm_vars(m['pre']['vars'], False)}"
+        if o["pre"]["spec"] != sorted(v[0] for v in m["pre"]["vars"]):
+            return f"ModelSpec.from_spec(formula).required_variables {o['pre']['spec']} vs model {sorted(v[0] for v in m['pre']['vars'])}"
         w = _cmp_sweep("before-set", o["pre"], m["pre"])
         if w:
             return w
+    early = _early_calls(o["factors"])
+    for entry in o.get("spy", []):
+        if entry["seen"] is None and early:
+            continue
+        if entry["seen"] != m.get("ctx_probe"):
+            return f"the `_context` handed to a stateful transform resolves {entry['seen']}, the model's environment {m.get('ctx_probe')}"
+        if not (entry["spec"] and entry["state"]):
+            return f"a stateful transform was not handed `_spec` / `_state`: {entry}"
     w = _cmp_run("full data", o["full"], m["full"])
     if w:
         return w
@@ -819,6 +1259,68 @@ def _layer_of(key, c, without=None):
     return None
 
 
+def _free_name_nodes(tree):
+    """the `Name` nodes of an expression that CPython looks up in the evaluation namespace, with `dotted` = the node is
+    the base of an attribute access: a plain recursive walk that carries the locally bound names (lambda parameters,
+    comprehension targets), written independently of the library and of the model; cross-checked below against the
+    compiler's own symbol tables"""
+    bases = {id(n.value) for n in ast.walk(tree) if isinstance(n, ast.Attribute)}
+    out = []
+
+    def targets(t):
+        return {n.id for n in ast.walk(t) if isinstance(n, ast.Name) and isinstance(n.ctx, ast.Store)}
+
+    def go(n, bound):
+        if isinstance(n, ast.Name):
+            if isinstance(n.ctx, ast.Load) and n.id not in bound:
+                out.append((n, id(n) in bases))
+            return
+        if isinstance(n, ast.Lambda):
+            a = n.args
+            for d in (*a.defaults, *a.kw_defaults):
+                if d is not None:
+                    go(d, bound)
+            ps = {x.arg for x in (*a.posonlyargs, *a.args, *a.kwonlyargs)} | {x.arg for x in (a.vararg, a.kwarg) if x}
+            go(n.body, bound | ps)
+            return
+        if isinstance(n, (ast.ListComp, ast.SetComp, ast.GeneratorExp, ast.DictComp)):
+            inner = set(bound)
+            for g in n.generators:
+                inner |= targets(g.target)
+            for i, g in enumerate(n.generators):
+                go(g.iter, bound if i == 0 else inner)
+                go(g.target, inner)
+                for c in g.ifs:
+                    go(c, inner)
+            for e in ((n.key, n.value) if isinstance(n, ast.DictComp) else (n.elt,)):
+                go(e, inner)
+            return
+        for ch in ast.iter_child_nodes(n):
+            go(ch, bound)
+
+    go(tree, frozenset())
+    return out
+
+
+def _symtable_globals(src):
+    """(names the compiler resolves outside the expression, names it also binds in an inlined comprehension): from its
+    symbol tables. CPython 3.12 inlines list/set/dict comprehensions, so their targets show up in the enclosing table as
+    assigned symbols; a name that is both such a target and a free name elsewhere is reported in the second set only."""
+    import symtable
+
+    free, ambiguous = set(), set()
+
+    def walk(t):
+        for sym in t.get_symbols():
+            if sym.is_referenced() and sym.is_global():
+                (ambiguous if sym.is_assigned() else free).add(sym.get_name())
+        for ch in t.get_children():
+            walk(ch)
+
+    walk(symtable.symtable(src, "<factor>", "eval"))
+    return free, ambiguous - free
+
+
 def _occurrences(factors):
     """every place a factor list reads a key of the environment, found by an independent walk:
     (key, where, dotted) with where = 'lookup' | 'python'; key = the (de-aliased) identifier of a Name node or
@@ -828,13 +1330,22 @@ def _occurrences(factors):
         if f["m"] == "lookup":
             occ.append((f["x"], "lookup", False))
         elif f["m"] == "python":
-            tree, aliases, _ = pycode(f["x"])
+            tree, aliases, src = pycode(f["x"])
             if tree is None:
                 continue
-            bases = {id(n.value) for n in ast.walk(tree) if isinstance(n, ast.Attribute)}
+            nodes = _free_name_nodes(tree)
+            ids = {n.id for n, _d in nodes}
+            free, ambiguous = _symtable_globals(src)
+            if not (free <= ids <= free | ambiguous):
+                raise AssertionError(f"free names of {src!r}: walk {sorted(ids)} vs symtable {sorted(free)} (+{sorted(ambiguous)})")
+            for n, dotted in nodes:
+                occ.append((aliases.get(n.id, n.id), "python", dotted))
+            # patsy's quoting transform reads the data column its string argument names (`_context.data[name]`)
+            free_q = {id(n) for n, _d in nodes if n.id == "Q"}
             for n in ast.walk(tree):
-                if isinstance(n, ast.Name):
-                    occ.append((aliases.get(n.id, n.id), "python", id(n) in bases))
+                if (isinstance(n, ast.Call) and id(n.func) in free_q and len(n.args) == 1 and not n.keywords
+                        and isinstance(n.args[0], ast.Constant) and isinstance(n.args[0].value, str)):
+                    occ.append((n.args[0].value, "Q", False))
     return occ
 
 
@@ -846,7 +1357,7 @@ def _bound_below(v, c):
     """a layer below the data (context, transforms, Python's builtins) binds `v`"""
     from formulaic.transforms import TRANSFORMS
 
-    return v in c["ctx"] or v in TRANSFORMS or hasattr(_builtins, v)
+    return v in c["ctx"] or v in TRANSFORMS or _is_last_resort(v)
 
 
 def _ok(o):
@@ -865,7 +1376,8 @@ def _expected_column(f, c):
         else:
             tree, aliases, s = pycode(f["x"])
             local = {new: env[old] for new, old in aliases.items() if new != old and old in env}
-            v = eval(compile(tree, "", "eval"), {}, collections.ChainMap(local, env))  # noqa: S307
+            # one flat namespace (data shadows context shadows transforms), used as globals so that nested scopes see it
+            v = eval(compile(tree, "", "eval"), dict(collections.ChainMap(local, env)))  # noqa: S307
         a = numpy.asarray(v, dtype=float)
     except Exception:
         return None
@@ -874,27 +1386,152 @@ def _expected_column(f, c):
     return [float(x) for x in a]
 
 
+def _diagnose_named(c, o):
+    """the three named layers of the materializer's context, looked up by name: `data` is the data, `context` what the
+    caller supplied, `transforms` the built-in transforms — whatever the caller's context contains; a named sub-layer of
+    the caller's context is found under its own name; any other name is an AttributeError"""
+    from formulaic.transforms import TRANSFORMS
+
+    upper, lower = _ctx_parts(c)
+    form = c.get("ctx_form", "dict")
+    want = {
+        "data": list(dict.fromkeys(c["data"])),
+        "context": o["ctx_keys"],
+        "transforms": list(TRANSFORMS),
+        NAMED_SUBLAYER: list(lower) if form in ("named", "grown") else "AttributeError",
+        "nosuch": "AttributeError",
+    }
+    for name, got in o.get("probe", []):
+        if got != want[name]:
+            return ("named-layer", dict(name=name, got=got, want=want[name]))
+    return None
+
+
+def _diagnose_spy(c, o):
+    """a stateful transform is handed the evaluation context: every key resolves in it as in the three layers"""
+    from formulaic.transforms import TRANSFORMS
+
+    early = _early_calls(o["factors"])
+    for entry in o.get("spy", []):
+        if entry["seen"] is None and early:
+            continue  # a call made while `stateful_eval` inspects a call target (outside the evaluation proper)
+        want = [[k, (k in c["data"] or k in c["ctx"] or k in TRANSFORMS), _layer_of(k, c)] for k in o["spy_keys"]]
+        if entry["seen"] != want:
+            return ("transform-context", dict(got=entry["seen"], want=want))
+    return None
+
+
+def _early_calls(factors):
+    """does some call target contain a call? `stateful_eval` evaluates every call target once ahead of the evaluation
+    (to see whether it is a stateful transform), so such an inner call happens an extra time, without `_context`"""
+    for f in factors:
+        if f["m"] != "python":
+            continue
+        tree, _aliases, _src = pycode(f["x"])
+        if tree is None:
+            continue
+        for n in ast.walk(tree):
+            if isinstance(n, ast.Call) and any(isinstance(m, ast.Call) for m in ast.walk(n.func)):
+                return True
+    return False
+
+
+def _tpl(c):
+    """the formula with § for every `.` operator (cases written before the template was recorded: a `.` that stands alone)"""
+    if "tpl" in c:
+        return c["tpl"]
+    lhs, _, rhs = c["formula"].rpartition("~")
+    return lhs + "~" + re.sub(r"(?<![\w.`)\]])\.(?![\w.`(\[])", "§", rhs)
+
+
+def _dot_expected(c, unused):
+    """the formula with EVERY occurrence of `.` written out as the given columns, parsed without any `.`"""
+    from formulaic import Formula
+
+    if unused:
+        sub = "(" + " + ".join(q(u) for u in unused) + ")"
+    else:
+        sub = "(x - x)"  # the empty set of terms
+    try:
+        return pc.canon_val(Formula(_tpl(c).replace("§", sub)))
+    except Exception as e:
+        return {"error": pc.exc_class(e)}
+
+
+def _leaves(x):
+    if isinstance(x, dict) and "s" in x:
+        return [l for v in x["s"].values() for l in _leaves(v)]
+    if isinstance(x, dict) and "t" in x:
+        return [l for v in x["t"] for l in _leaves(v)]
+    return [x]
+
+
+def _diagnose_dot(c, o):
+    import itertools
+
+    # what the left-hand side reads is found on the text before the top-level `~` (independent walk of the CPython trees)
+    if "parse_error" in o:
+        lhs_factors = None
+    else:
+        lhs_factors = o["lhs_factors"]
+    mode = c.get("avail_mode", "layers")
+    available = list(c["avail_list"]) if mode == "explicit" else list(c["data"])
+    if mode == "none":
+        # nothing tells the parser which variables exist: `.` must be rejected as a formula error
+        if o.get("parse_error") != "FormulaParsingError":
+            return ("dot-nodata", dict(got=o.get("parse_error", "a formula")))
+        return None
+    if lhs_factors is None:
+        # the implementation rejected the formula: it must also be rejected with every `.` written out (whatever the columns)
+        want = _dot_expected(c, available)
+        if "error" not in want:
+            return ("dot-rejected", dict(error=o["parse_error"]))
+        return None
+    reads = _reads(lhs_factors)
+    unused = [col for col in dict.fromkeys(available) if col not in reads]
+    want = _dot_expected(c, unused)
+    got = o["formula"]
+    if got != want:
+        f1, f2, _f3, f4 = _signatures(c, lhs_factors)
+        cand = [col for col in dict.fromkeys(available) if col in reads and (col in f1 or col in f2 or col in f4)]
+        for n in range(len(cand), 0, -1):
+            for extra in itertools.combinations(cand, n):
+                alt = [col for col in dict.fromkeys(available) if col not in reads or col in extra]
+                if _dot_expected(c, alt) == got:
+                    return ("dot", dict(got=got, want=want, unused=unused, extra=list(extra)))
+        return ("dot", dict(got=got, want=want, unused=unused, extra=None))
+    if "parts" in o:
+        rhs = o["parts"]["s"].get("rhs") if isinstance(o["parts"], dict) and "s" in o["parts"] else None
+        if rhs is not None:
+            used = [k for k in reads if k in c["data"]]
+            for leaf in _leaves(rhs):
+                bad = sorted(set(leaf) & set(used))
+                if bad:
+                    return ("dot-response", dict(bad=bad, leaf=leaf))
+    return None
+
+
 def diagnose(c, o):
     """first way in which the implementation's observables contradict the property: (kind, details) or None"""
+    ENV_KEYS[:] = env_keys(c)
     if "harness_exception" in o:
         return ("harness", dict(msg=o["harness_exception"]))
-    if "parse_error" in o and "lhs" not in o:
+    if "parse_error" in o and ("ctx_desc" not in o or c["kind"] != "dot"):
         return None  # the formula string itself is rejected: outside C17
+    d = _diagnose_named(c, o)
+    if d is not None:
+        return d
     if c["kind"] == "dot":
-        if "parse_error" in o:
-            return ("dot-rejected", dict(error=o["parse_error"]))
-        reads = _reads(o["lhs_factors"])
-        want = [[col] for col in c["data"] if col not in reads]
-        if o["terms"] != want:
-            got = [t[0] for t in o["terms"] if len(t) == 1]
-            return ("dot", dict(got=o["terms"], want=want, extra=[g for g in got if [g] not in want], missing=[w[0] for w in want if w not in o["terms"]]))
-        return None
+        return _diagnose_dot(c, o)
+    d = _diagnose_spy(c, o)
+    if d is not None:
+        return d
     reads = _reads(o["factors"])
     data_reads = [k for k in reads if k in c["data"]]
     if "error" in o["pre"]:
         return ("pre-error", dict(error=o["pre"]["error"]))
     full = o["full"]
-    unbound = [k for k in reads if _layer_of(k, c) is None and not hasattr(_builtins, k)]
+    unbound = [k for k in reads if _layer_of(k, c) is None and not _is_last_resort(k)]
     if unbound and _ok(full):
         return ("unbound-ok", dict(names=unbound))
     if not unbound and full.get("error") == "FactorEvaluationError" and full.get("cause") == "NameError":
@@ -902,7 +1539,14 @@ def diagnose(c, o):
     if unbound and full.get("error") != "FactorEvaluationError":
         return ("unbound-wrong-class", dict(names=unbound, error=full.get("error")))
     if not _ok(full):
-        return None  # not materialisable on the full data: sufficiency/necessity say nothing
+        # not materialisable on the full data: sufficiency/necessity say nothing. But the failure itself must have a
+        # reason: when every factor evaluates (independently, names resolved data > context > transforms) to a numeric
+        # column, the materialisation has to succeed.
+        if full.get("error") == "FactorEvaluationError" and not any(k in RESERVED_NAMES for k in list(c["data"]) + list(c["ctx"])):
+            cols = [_expected_column(f, c) for f in o["factors"] if f["m"] != "literal"]
+            if cols and all(col is not None for col in cols):
+                return ("spurious-failure", dict(cause=full.get("cause")))
+        return None
     for tag, sw, names in (("before", o["pre"], [v[0] for v in o["pre"]["vars"]]), ("after", o["post"], full["req"])):
         r = sw["restricted"]
         if not _ok(r):
@@ -955,7 +1599,19 @@ def oracle(c, o):
     if k == "dot-rejected":
         return f"`lhs ~ .` rejected with {x['error']}"
     if k == "dot":
-        return f"`.` expanded to {x['got']}; data columns not used on the left-hand side, in data order: {x['want']}"
+        return (f"`{c['formula']}` gives {x['got']}; with EVERY `.` = the data columns not used on the left-hand side, in data order "
+                f"{x['unused']}, it is {x['want']}")
+    if k == "spurious-failure":
+        return (f"the materialisation fails with a factor-evaluation error ({x['cause']}) although every factor evaluates to a numeric "
+                "column when its names are resolved data > context > transforms")
+    if k == "named-layer":
+        return f"layered_context.{x['name']} gives {x['got']}; the layer of that name holds {x['want']}"
+    if k == "transform-context":
+        return f"the `_context` handed to a stateful transform resolves the keys as {x['got']}; data > context > transforms gives {x['want']}"
+    if k == "dot-nodata":
+        return f"`{c['formula']}` without any information about the available variables gives {x['got']} instead of a formula error"
+    if k == "dot-response":
+        return f"a right-hand part of `{c['formula']}` reports the response variable(s) {x['bad']} as required: {x['leaf']}"
     if k == "pre-error":
         return f"Formula.required_variables raised {x['error']}"
     if k == "unbound-ok":
@@ -987,12 +1643,19 @@ def oracle(c, o):
 
 
 def _signatures(c, factors):
-    """data columns that occur in Python code in one of the three known-defective ways"""
+    """data columns (for `.` with an explicit list: the variables declared available) that occur in Python code in one
+    of the known-defective ways"""
     from formulaic.transforms import TRANSFORMS
 
-    f1, f2, f3 = set(), set(), set()
+    f1, f2, f3, f4 = set(), set(), set(), set()
+    columns = set(c["avail_list"]) if c.get("avail_mode") == "explicit" else set(c["data"])
+    q_is_transform = "Q" not in c["data"] and "Q" not in c["ctx"]
     for k, where, dotted in _occurrences(factors):
-        if where != "python" or k not in c["data"]:
+        if where == "Q":
+            if k in columns and q_is_transform:
+                f4.add(k)
+            continue
+        if where != "python" or k not in columns:
             continue
         if dotted:
             f2.add(k)
@@ -1001,7 +1664,7 @@ def _signatures(c, factors):
                 f1.add(k)
             if "." in k:
                 f3.add(k)
-    return f1, f2, f3
+    return f1, f2, f3, f4
 
 
 def classify(c, o, why):
@@ -1010,17 +1673,19 @@ def classify(c, o, why):
        C17-F2  attribute access or method call on a data column inside Python code: reported under the dotted name
                (`x.T`, source data) instead of the column, or dropped (callable role, before materialisation);
        C17-F3  a back-quoted data column whose name contains '.' inside Python code: its source is looked up under
-               the part before the first '.'."""
+               the part before the first '.';
+       C17-F4  a data column read through the quoting transform `Q("name")`: the name is a string constant, not a
+               `Name` node, and is reported neither before nor after materialisation."""
     d = diagnose(c, o)
     if d is None:
         return None  # a model/implementation disagreement without a property failure is never a known finding
     k, x = d
-    factors = o["lhs_factors"] if c["kind"] == "dot" else o["factors"]
-    f1, f2, f3 = _signatures(c, factors)
+    factors = o.get("lhs_factors", []) if c["kind"] == "dot" else o["factors"]
+    f1, f2, f3, f4 = _signatures(c, factors)
     if k == "dot":
-        if x["missing"] or not x["extra"]:
+        if not x["extra"]:
             return None
-        ids = ["C17-F2" if e in f2 else "C17-F1" if e in f1 else None for e in x["extra"]]
+        ids = ["C17-F2" if e in f2 else "C17-F1" if e in f1 else "C17-F4" if e in f4 else None for e in x["extra"]]
         return ids[0] if all(ids) else None
     if k == "insufficient":
         if not x["missing"]:
@@ -1033,6 +1698,8 @@ def classify(c, o, why):
                 ids.append("C17-F1")
             elif m in f3 and x["tag"] == "after":
                 ids.append("C17-F3")
+            elif m in f4:
+                ids.append("C17-F4")
             else:
                 ids.append(None)
         return ids[0] if all(ids) else None
@@ -1052,7 +1719,7 @@ def classify(c, o, why):
     if k == "read-unreported":
         if x["layer"] != "data":
             return None
-        return "C17-F2" if x["k"] in f2 else "C17-F3" if x["k"] in f3 else None
+        return "C17-F2" if x["k"] in f2 else "C17-F3" if x["k"] in f3 else "C17-F4" if x["k"] in f4 else None
     return None
 
 
@@ -1064,15 +1731,21 @@ def sanitized(name):
 
 LEVEL_TEXT = (
     "Proof: Lean theorems (Props/C17.lean) about the executable model of variables.py / required_variables / the three-layer "
-    "context / stateful_eval's name handling show, for ALL expressions of the strict Python fragment, all alias tables and all "
-    "layer contents: lookup returns the value of the first of data, context, transforms containing the key and the reported "
-    "source is that layer's name; evaluation depends only on the values of the free names and fails whenever one is unbound; "
-    "the breadth-first extraction terminates and covers every Name node; hence the reported sets are sufficient and necessary "
-    "under explicitly stated side conditions (each side condition is a reported finding or assumption); `.` is the duplicate-free "
-    "list of data columns not among the left-hand-side variables, in data order. The model is tied to the code by a differential "
+    "context with its named layers / stateful_eval's name handling show, for ALL expressions — strict fragment plus lambdas "
+    "and the four comprehensions —, all alias tables and all layer contents: lookup returns the value of the first of data, "
+    "context, transforms containing the key and the reported source is that layer's name; `layered_context.data/.context/"
+    ".transforms` denote the three layers whatever the caller's context holds; the breadth-first extraction terminates and "
+    "reports exactly the FREE Name nodes (lambda parameters and comprehension targets are never reported); evaluation depends "
+    "only on what the free names resolve to, inside nested scopes as at top level; it fails whenever a name in strict "
+    "position is unbound and a NameError always names an unbound free name; a reserved name in any layer rejects every "
+    "Python factor; hence the reported sets — of one spec and of the union over several parts — are sufficient and necessary "
+    "under explicitly stated side conditions (each side condition is a reported finding or assumption); `.` is the "
+    "duplicate-free list of the keys of the data layer not among the left-hand-side variables, in data order, and EVERY "
+    "occurrence of `.` in a formula tree evaluates to that one list. The model is tied to the code by a differential "
     "correspondence on every run and the property is checked on the real objects by the oracle."
 )
 LEVEL_NOTE = (
-    "Partial: CPython's parser, the back-quote sanitiser and the semantics of operations on values are parameters; name "
-    "resolution inside comprehensions/lambdas/short-circuit operators is not modelled (generator stays in the strict fragment)."
+    "Partial: CPython's parser and scoping, the back-quote sanitiser and the semantics of operations on values (including "
+    "when closures run and whether iterables are empty) are parameters; conditional expressions, `and`/`or`, chained "
+    "comparisons, starred arguments and `:=` are not modelled (generator stays outside); `Q(\"name\")` is opaque (finding C17-F4)."
 )
